@@ -43,6 +43,7 @@ func c13Single() []c13Spelling {
 		{"trailing comma in the rule object", model.Style{TrailingComma: true}, false},
 		{"no blanks after colons", model.Style{TightColon: true}, false},
 		{"extra blank lines and trailing blanks", model.Style{ExtraBlank: true}, false},
+		{"string examples written with \\u escapes", model.Style{LitEscapes: true}, false},
 		{"rule order permuted", model.Style{}, true},
 	}
 }
@@ -57,6 +58,7 @@ func c13Random(r *mon.Rng) c13Spelling {
 		Comments:      r.Bool(),
 		TightColon:    r.Bool(),
 		ExtraBlank:    r.Bool(),
+		LitEscapes:    r.Bool(),
 		Mixed:         r.Fork(),
 	}
 	return c13Spelling{"random composition", st, r.Bool()}
